@@ -14,7 +14,7 @@ git apply -R /tmp/keep_$id.diff
 t_without=$(run_tests); d_without=$(run_demo)
 git apply /tmp/keep_$id.diff
 echo "tests with: $t_with | without: $t_without | demo with: $d_with without: $d_without"
-out=$(cd /verif && tools/try_patch.sh /tmp/keep_$id.diff $chk 2>&1)
+out=$(cd /verif && VERIF_SKIP_COQCHK=1 tools/try_patch_iso.sh /tmp/keep_$id.diff $chk 2>&1)
 echo "$out" | tail -4 | cut -c1-200
 mkdir -p /verif/seeded/$name
 cp /tmp/keep_$id.diff /verif/seeded/$name/patch.diff
@@ -24,7 +24,7 @@ import json,sys,subprocess
 id_,chk,tw,two,dw,dwo,name=sys.argv[1:8]
 m=json.load(open('%s/meta_%s.json'%(sys.argv[8],id_)))
 out=open('/dev/stdin').read() if False else ""
-m.update({"breaks_property":m.get("property",id_),"checked_with":"./check %s --tier quick (after git -C /repo apply patch.diff; reverted afterwards)"%chk,
+m.update({"breaks_property":m.get("property",id_),"checked_with":"./check %s --tier quick (patch applied to a scratch worktree of /repo, check run from a scratch copy of /verif: tools/try_patch_iso.sh)"%chk,
  "confirmed":{"tests_with_change":tw.strip(),"tests_without_change":two.strip(),"demo_exit_with_change":int(dw),"demo_exit_without_change":int(dwo),
               "how":"ran the repository test suite and the demonstration in a scratch worktree with and without the change (PYTHONPATH=<worktree>/src)"}})
 json.dump(m,open('/verif/seeded/%s/meta.json'%name,'w'),indent=1)
